@@ -18,7 +18,17 @@ Scope decisions (so that no more is demanded than the property states):
     bonds outside the declared aromatic rings (CGsmiles defines such rings as aromatic and returns 1.5 there,
     so Kekule and aromatic spelling are one molecule - not a C01 question), aromatic rings of benzene / pyridine type.
   * descriptors are written directly behind their atom (before or behind its ring digits) or, for the first atom,
-    in front of the fragment; never behind a branch.
+    in front of the fragment; in block 6 behind the branches of their atom (`C(O)(C(F)Cl)[$a]`: a descriptor that
+    follows `)` belongs to the atom the branch started from, as anything that follows a branch in SMILES; that
+    includes a `)` closing a branch which itself contains branches).  Only there: blocks 1-5 never write a
+    descriptor behind a branch.
+  * block 7: molecules whose usual spelling has an aromatic `[nH]` (pyrrole, imidazole, indole, 2,2'-bipyrrole,
+    2-pyridone, histidine).  The fragments are written in that aromatic spelling; the molecule that must come back is
+    the structure with the N-H localised (the only Kekule structure of the five-membered ring; the benzo ring of indole
+    is aromatic, 1.5), typed in by hand next to the aromatic spelling in gen/g2_molecules.NH_AROMATIC_SMILES and
+    completed with hydrogens by the valence table.  Partitions of these molecules never cut a bond of a ring that
+    contains the `[nH]` (a lower-case fragment with an `[nH]` whose ring is closed only through descriptors is a
+    question about reading aromatic fragments, not about the cut), see NH_RULE.
   * the base graph is written without consecutive closing braces and without `|n`; if cgsmiles.read_cgsmiles does
     not read the base-graph string as the intended graph the case is SKIPPED (that is C04's subject, F7 / F8).
   * both constructors named in the property's observe_at are used: from_string, and from_graph with node keys
@@ -108,6 +118,10 @@ def cases(tier, seed):
         for part in g2.connected_partitions(mol):
             for r in g2.exhaustive_renderings(mol, part):
                 yield {'fam': 'b1', 'mol': mol, 'part': part, 'r': r}
+    # ---- block 6: descriptors written behind the branches of their atom (incl. nested branches)
+    yield from _block6(tier, seed)
+    # ---- block 7: aromatic [nH] molecules
+    yield from _block7(tier, seed)
     # ---- block 4: every base-graph node order, both constructors
     for n in ((2, 3) if quick else (2, 3, 4)):
         for mol in g2.small_molecules(n, g2.ALPHA_CNO):
@@ -154,6 +168,94 @@ def cases(tier, seed):
                     r['base'] = base
                     r['ctor'] = 'graph' if i % 3 == 2 else 'string'
                     yield {'fam': 'b2', 'mol': mol, 'part': part, 'r': r}
+
+
+TAIL_MOLS = ['OC(N)C(F)Cl', 'CC(O)C(N)C', 'OC(=O)C(N)CS', 'CC(C)(C)C(C)=O', 'NC(=O)C(C)C#N', 'CC(C(C)(F)Cl)C(O)=C', 'OC(C1CC1)C(N)=O',
+             'C[N+](C)(C)C(C)C([O-])=O', 'CC(C)c1ccccc1', 'CC(N)C1=CCC1']
+_DESC_BEHIND_BRANCH = re.compile(r'\)[=#]?\[[$<>]')
+_DESC_BEHIND_NESTED = re.compile(r'\([^()]*\([^()]*\)[^()]*\)[=#]?\[[$<>]')
+
+
+def _tail_cases(fam, mol, part, rends, quota, extra=None):
+    """the renderings whose text really has a descriptor behind `)`; the ones behind a nested branch first; distinct texts"""
+    seen, nested, flat = set(), [], []
+    for r in rends:
+        case = {'fam': fam, 'mol': mol, 'part': part, 'r': r}
+        if extra:
+            case.update(extra)
+        t = g2.build(case)['frag_str']
+        if t in seen or not _DESC_BEHIND_BRANCH.search(t):
+            continue
+        seen.add(t)
+        (nested if _DESC_BEHIND_NESTED.search(t) else flat).append(case)
+    return (nested + flat)[:quota] if quota else nested + flat
+
+
+def _block6(tier, seed):
+    quick = tier == 'quick'
+    # (i) hand-picked branched molecules with 6-9 heavy atoms: every partition (<= 7 atoms) or seeded ones
+    for smi in TAIL_MOLS:
+        mol = g2.parse_smiles(smi)
+        prng = random.Random(seed * 77 + sum(map(ord, smi)))
+        parts = g2.connected_partitions(mol) if len(mol['a']) <= 6 else g2.sampled_partitions(mol, prng, 12 if quick else 60)
+        for part in parts:
+            nf = max(part) + 1
+            if nf < 2:
+                continue
+            for i, case in enumerate(_tail_cases('b6', mol, part, g2.tail_renderings(mol, part, cap=12 if quick else 200),
+                                                 2 if quick else 12, {'smiles': smi})):
+                case['r']['base'] = list(range(nf)) if i % 2 == 0 else list(range(nf))[::-1]
+                case['r']['ctor'] = 'string' if i % 3 < 2 else 'graph'
+                yield case
+    # (ii) every carbon skeleton and probe with 4 heavy atoms (block 1 molecules): all partitions, all such renderings
+    for mol in _block1_mols('quick'):
+        if len(mol['a']) < 4:
+            continue
+        for part in g2.connected_partitions(mol):
+            if max(part) < 1:
+                continue
+            yield from _tail_cases('b6', mol, part, g2.tail_renderings(mol, part), None)
+    # (iii) the library: seeded partitions, one or more renderings each
+    for smi, mol in g2.library():
+        prng = random.Random(seed * 13 + sum(map(ord, smi)))
+        for part in g2.sampled_partitions(mol, prng, 3 if quick else 15):
+            nf = max(part) + 1
+            if nf < 2:
+                continue
+            for case in _tail_cases('b6', mol, part, g2.tail_renderings(mol, part, cap=4 if quick else 16), 1 if quick else 4,
+                                    {'smiles': smi}):
+                yield case
+
+
+NH_RULE = ('partitions of an [nH] molecule keep every ring that is written in lower case and contains the [nH] inside one '
+           'fragment (substituent bonds, the bond between the two rings of bipyrrole, bonds of side chains and of the benzo ring '
+           'of indole may be cut)')
+
+
+def _nh_partition_ok(mol, part):
+    import networkx as nx
+    g = nx.Graph()
+    g.add_edges_from((u, v) for u, v, _ in mol['b'])
+    for cyc in nx.minimum_cycle_basis(g):
+        if any(mol['a'][a][2] == 2 for a in cyc) and len({part[a] for a in cyc}) > 1:
+            return False
+    return True
+
+
+def _block7(tier, seed):
+    quick = tier == 'quick'
+    for smi, mol in g2.nh_library():
+        prng = random.Random(seed * 19 + sum(map(ord, smi)))
+        parts = [p for p in g2.sampled_partitions(mol, prng, 40 if quick else 200, max_blocks=4) if _nh_partition_ok(mol, p)]
+        for part in parts[:8 if quick else 40]:
+            nf = max(part) + 1
+            for i, r in enumerate(g2.covering_renderings(mol, part, (4 if quick else 8) if nf > 1 else 2, prng)):
+                base = list(range(nf))
+                if i % 2:
+                    prng.shuffle(base)
+                r['base'] = base
+                r['ctor'] = 'graph' if i % 3 == 2 else 'string'
+                yield {'fam': 'b7', 'smiles': smi, 'mol': mol, 'part': part, 'r': r}
 
 
 def classify(built, kind):
